@@ -118,9 +118,9 @@ def check_case(case):
         if ctx.active(S.F_NESTED):
             try:
                 model = pddl.successor(S.k3_effect(a["eff"]), env, st, world)
-            except pddl.Conflict:
-                model = "any"   # under the defect model the firing effects conflict: outcome order-dependent
-            except (pddl.Undefined, pddl.Ambiguous):
+            except (pddl.Conflict, pddl.Undefined):
+                model = "any"   # under the defect model the firing effects conflict / read undefined values
+            except pddl.Ambiguous:
                 model = None
         t, f = cond_profile(a["eff"], env, st, world)
         seen_t, seen_f = seen_t or t, seen_f or f
@@ -140,6 +140,9 @@ def check_case(case):
                 state = build_state(domain, world, st)
             ok2, got = lib_apply(domain, a["name"], pr["args"], objs, state, ints, k)
             tag = "C03/successor" if k is None else "C03/successor-permuted"
+            if not ok2 and model == "any":
+                res.known.append(S.F_NESTED)
+                break
             if not ok2:
                 if got.type == "BadState":
                     res.bad(f"{tag}/unreadable-state", {**info, "error": repr(got)})
